@@ -58,6 +58,10 @@ Definition cset_mst (s : cst) (m : mstate) : cst :=
 (* the main loop: as step_main; a potential violation is queued for the thread pool, a stuck path
    is solved synchronously by solve_low_level, which does not consult the cache and whose output
    does not go through the callback *)
+Definition cstuck_solved (s : cst) (rest : list qpath) (a : answer) : cst :=
+  mkcst MCheck rest (S (cnextid s)) (cflag s) (cjobs s) (ccores s) (couts s)
+        (if stuck_counted (is_unsat a) then S (cnstuck s) else cnstuck s) (cnormal s) (chits s).
+
 Definition cstep_main (s : cst) : cst :=
   match cmst s with
   | MCheck =>
@@ -74,9 +78,8 @@ Definition cstep_main (s : cst) : cst :=
               mkcst MCheck rest (S (cnextid s)) (cflag s) (cjobs s ++ [mkjob (cnextid s) q Queued])
                     (ccores s) (couts s) (cnstuck s) (cnormal s) (chits s)
           | AStuckSolve =>
-              if cflag s then cset_mst s MCrashed
-              else mkcst MCheck rest (S (cnextid s)) (cflag s) (cjobs s) (ccores s) (couts s)
-                         (if stuck_counted (is_unsat (ans (base q))) then S (cnstuck s) else cnstuck s) (cnormal s) (chits s)
+              if cflag s then cset_mst s (if stuck_shutdown_escapes then MCrashed else MDone)
+              else cstuck_solved s rest (ans (base q))
           | ACountNormal =>
               mkcst MCheck rest (S (cnextid s)) (cflag s) (cjobs s) (ccores s) (couts s) (cnstuck s) (S (cnormal s)) (chits s)
           | ANone =>
@@ -88,9 +91,14 @@ Definition cstep_main (s : cst) : cst :=
 
 Definition cstep_main_raise (s : cst) : cst :=
   match cmst s, ctodo s with
-  | MBody, q :: _ =>
+  | MBody, q :: rest =>
       match kind_action (kind (base q)) with
-      | AStuckSolve => if is_err (ans (base q)) then cset_mst s MCrashed else cstep_main s
+      | AStuckSolve =>
+          if cflag s then cstep_main s
+          else if is_err (ans (base q)) then
+            if stuck_exception_escapes then cset_mst s MCrashed
+            else cstuck_solved s rest (answer_of_class from_error_class true)
+          else cstep_main s
       | _ => cstep_main s
       end
   | _, _ => cstep_main s
